@@ -42,6 +42,11 @@ CHECKS = {
         engine="sqlsmt", ref="3 C33", note='Trusted: sqlglot + vt/sqlsmt SQL semantics (self-checked against real DuckDB in the C01-C05 checks), z3, hand-built AST shapes.' + " Physical order model: scan order of an input table = its row order; UNION ALL concatenates.",
         text="Each template is evaluated twice over the same symbolic datapoints with two independent symbolic row orders per input (order indices feed ROW_NUMBER() OVER (), unordered list() "
              "and order ties); z3 decides the two results are equal as sets (unsat). Partial: input forms (CSV/Parquet) and column reordering are decided inside DuckDB/pandas and are outside."),
+    "C06": dict(technique="bounded SMT (z3) equivalence between the window SQL regenerated from the real transpiler (partitions, orderings, ROWS/RANGE frames encoded over symbolic tables) and the VTL definition of each analytic function; models replayed through run()",
+        engine="sqlsmt", ref="3 C06", note="Trusted: sqlglot + vt/sqlsmt window semantics (positions by counting, default/ROWS/RANGE frames; self-checked against real DuckDB per template), z3, AST shapes.",
+        text="For ~70 (quick) / ~110 (thorough) analytic invocations - sum avg count min max first_value last_value lag lead rank ratio_to_report (thorough: median, var, stddev) with partition by / except, "
+             "asc/desc order, data-point frames (offsets 0-2, unbounded, current) and range frames, at dataset level and inside calc - the emitted window SQL evaluated over all tables of 3 (4) datapoints "
+             "equals the function over the datapoints of the partition inside the frame, under the statement's precondition of a total order."),
     "C11": dict(
         technique="CrossHair symbolic execution of the real promotion functions and operator classes over symbolic type indices",
         text="Every obligation is a CrossHair condition over symbolic operand-type indices (all 9x9 pairs, all 9 unary types) calling the "
